@@ -438,7 +438,7 @@ type X25 struct {
 }
 
 func (rr *X25) String() string {
-	return rr.Hdr.String() + rr.PSDNAddress
+	return rr.Hdr.String() + sprintTxt([]string{rr.PSDNAddress})
 }
 
 // ISDN RR. See RFC 1183, Section 3.2.
